@@ -264,6 +264,10 @@ package ociregistry
 //@   modifies nothing
 //@   panics when err != nil
 //@   ensures[an-error-that-says-range-invalid-is-sent-as-416] saysRangeInvalid(err) ==> result.1 == 416
+// what is put on the wire (e, marshalled by encoding/json): the code, and the
+// error's own detail exactly as it is (any JSON value, not only objects)
+//@   ensures[code-and-detail-go-out-as-they-are] e.Code_ == wireCode(err) &&
+//@     (errAs(err, Error) != nil ==> e.Detail_ == errAs(err, Error).Detail()) && (errAs(err, Error) == nil ==> len(e.Detail_) == 0)
 //@   ensures[status-agrees-with-code] result.1 == specStatus(wireCode(err), errAs(err, HTTPError) != nil ? errAs(err, HTTPError).StatusCode() : 500)
 
 // specStatus is the table of the distribution specification (written from the
